@@ -10,6 +10,7 @@ import AnonModel.Driver.OpsStore
 import AnonModel.Driver.OpsTails
 import AnonModel.Driver.OpsWire
 import AnonModel.Driver.OpsIssue
+import AnonModel.Driver.OpsMeets
 import AnonModel.Model.Ident
 /-! Dispatch of line-protocol operations to model functions. -/
 open Lean
@@ -68,6 +69,9 @@ def step (j : Json) : Json :=
     | some r => r
     | none =>
     match stepIssue op j with
+    | some r => r
+    | none =>
+    match stepMeets op j with
     | some r => r
     | none => badOp
 
